@@ -1,9 +1,163 @@
 package main
 
 import (
+	"bytes"
 	"go/ast"
+	"go/printer"
 	"go/token"
 )
+
+// c06Expr prints an expression after replacing every identifier that the function defines exactly once by `x := e`
+// (single left-hand side) with that e — so that `key := tgs.Line(); delete(m, key)` and `delete(m, tgs.Line())` compare equal
+func c06Expr(e ast.Expr, defs map[string]ast.Expr, depth int) string {
+	if id, ok := e.(*ast.Ident); ok && depth < 4 {
+		if d, ok := defs[id.Name]; ok && d != nil {
+			return c06Expr(d, defs, depth+1)
+		}
+	}
+	var b bytes.Buffer
+	printer.Fprint(&b, token.NewFileSet(), e)
+	return b.String()
+}
+
+// c06Defs: identifiers assigned exactly once in fd, by a `:=` or `=` with one left-hand side (nil = assigned more than once)
+func c06Defs(fd *ast.FuncDecl) map[string]ast.Expr {
+	defs := map[string]ast.Expr{}
+	ast.Inspect(fd.Body, func(n ast.Node) bool {
+		if as, ok := n.(*ast.AssignStmt); ok {
+			for i, lhs := range as.Lhs {
+				if id, ok := lhs.(*ast.Ident); ok && id.Name != "_" {
+					if _, seen := defs[id.Name]; seen || len(as.Lhs) != 1 || len(as.Rhs) != 1 {
+						defs[id.Name] = nil
+					} else {
+						defs[id.Name] = as.Rhs[i]
+					}
+				}
+			}
+		}
+		return true
+	})
+	return defs
+}
+
+// c06ReparseGuard: is there, in getOrCreateJournal between the first and the second read of ims.tmap, an
+// `if !x.M() { … return … }` where M is a method of tag.Set whose body calls kvstring.ToMap and kvstring.MapsEquals
+// (proposed-fixes/F08r.diff)?
+func c06ReparseGuard(fd *ast.FuncDecl) bool {
+	tagf := parseFile("pkg/model/tag/tags.go")
+	isReparse := func(name string) bool {
+		if tagf == nil {
+			return false
+		}
+		m := funcDecl(tagf, "Set", name)
+		if m == nil || m.Body == nil {
+			return false
+		}
+		toMap, eq := false, false
+		ast.Inspect(m.Body, func(n ast.Node) bool {
+			if ce, ok := n.(*ast.CallExpr); ok {
+				if se, ok := ce.Fun.(*ast.SelectorExpr); ok {
+					switch se.Sel.Name {
+					case "ToMap":
+						toMap = true
+					case "MapsEquals":
+						eq = true
+					}
+				}
+			}
+			return true
+		})
+		return toMap && eq
+	}
+	var reads []token.Pos
+	ast.Inspect(fd.Body, func(n ast.Node) bool {
+		if ix, ok := n.(*ast.IndexExpr); ok {
+			if se, ok := ix.X.(*ast.SelectorExpr); ok && se.Sel.Name == "tmap" {
+				reads = append(reads, ix.Pos())
+			}
+		}
+		return true
+	})
+	found := false
+	ast.Inspect(fd.Body, func(n ast.Node) bool {
+		is, ok := n.(*ast.IfStmt)
+		if !ok || is.Init != nil {
+			return true
+		}
+		ue, ok := is.Cond.(*ast.UnaryExpr)
+		if !ok || ue.Op != token.NOT {
+			return true
+		}
+		ce, ok := ue.X.(*ast.CallExpr)
+		if !ok || len(ce.Args) != 0 {
+			return true
+		}
+		se, ok := ce.Fun.(*ast.SelectorExpr)
+		if !ok || !isReparse(se.Sel.Name) {
+			return true
+		}
+		returns := false
+		for _, st := range is.Body.List {
+			if _, ok := st.(*ast.ReturnStmt); ok {
+				returns = true
+			}
+		}
+		if returns && len(reads) >= 2 && is.Pos() > reads[0] && is.Pos() < reads[1] {
+			found = true
+		}
+		return true
+	})
+	return found
+}
+
+
+// c06CreateSite: the function that holds the create branch — getOrCreateJournal itself when it calls saveStateUnsafe()
+// directly, otherwise the first method of the same receiver called from it (depth <= 2) that does (a refactoring may move
+// "register the new descriptor and save" into a helper)
+func c06CreateSite(f *ast.File, fd *ast.FuncDecl) *ast.FuncDecl {
+	callsSave := func(d *ast.FuncDecl) bool {
+		found := false
+		ast.Inspect(d.Body, func(n ast.Node) bool {
+			if ce, ok := n.(*ast.CallExpr); ok {
+				if se, ok := ce.Fun.(*ast.SelectorExpr); ok && se.Sel.Name == "saveStateUnsafe" {
+					found = true
+				}
+			}
+			return !found
+		})
+		return found
+	}
+	callees := func(d *ast.FuncDecl) []*ast.FuncDecl {
+		var r []*ast.FuncDecl
+		ast.Inspect(d.Body, func(n ast.Node) bool {
+			if ce, ok := n.(*ast.CallExpr); ok {
+				if se, ok := ce.Fun.(*ast.SelectorExpr); ok {
+					if m := funcDecl(f, "inmemService", se.Sel.Name); m != nil && m.Body != nil && m != d && se.Sel.Name != "saveStateUnsafe" {
+						r = append(r, m)
+					}
+				}
+			}
+			return true
+		})
+		return r
+	}
+	if callsSave(fd) {
+		return fd
+	}
+	for _, m := range callees(fd) {
+		if callsSave(m) {
+			return m
+		}
+	}
+	for _, m := range callees(fd) {
+		for _, m2 := range callees(m) {
+			if callsSave(m2) {
+				return m2
+			}
+		}
+	}
+	return fd
+}
 
 // C06: the create branch of tindex.getOrCreateJournal — where `smap` is written relative to the index save and what the
 // failure path of the save rolls back. Found by structure: the `if err != nil { … }` that directly follows the statement
@@ -19,6 +173,10 @@ func init() {
 		} else {
 			savePos, failBlock := token.NoPos, (*ast.BlockStmt)(nil)
 			var smapWrites []token.Pos
+			afd := c06CreateSite(f, fd)
+			defs := c06Defs(afd)
+			tmapInsertKey := "" // the key expression of the last `ims.tmap[K] = td` before the save (the create branch)
+			var tmapWrites []*ast.IndexExpr
 			isSaveCall := func(n ast.Node) bool {
 				found := false
 				ast.Inspect(n, func(m ast.Node) bool {
@@ -39,7 +197,7 @@ func init() {
 				}
 				return ""
 			}
-			ast.Inspect(fd.Body, func(n ast.Node) bool {
+			ast.Inspect(afd.Body, func(n ast.Node) bool {
 				switch x := n.(type) {
 				case *ast.BlockStmt:
 					for i, s := range x.List {
@@ -67,6 +225,9 @@ func init() {
 						if mapName(lhs) == "smap" {
 							smapWrites = append(smapWrites, x.Pos())
 						}
+						if mapName(lhs) == "tmap" {
+							tmapWrites = append(tmapWrites, lhs.(*ast.IndexExpr))
+						}
 					}
 				}
 				return true
@@ -81,6 +242,11 @@ func init() {
 					}
 				}
 				delT, delS = false, false
+				for _, w := range tmapWrites {
+					if w.Pos() < savePos {
+						tmapInsertKey = c06Expr(w.Index, defs, 0)
+					}
+				}
 				if failBlock != nil {
 					ast.Inspect(failBlock, func(n ast.Node) bool {
 						if ce, ok := n.(*ast.CallExpr); ok && len(ce.Args) == 2 {
@@ -88,7 +254,12 @@ func init() {
 								if se, ok := ce.Args[0].(*ast.SelectorExpr); ok {
 									switch se.Sel.Name {
 									case "tmap":
-										delT = true
+										// the roll-back must remove the key the descriptor was inserted under
+										if k := c06Expr(ce.Args[1], defs, 0); tmapInsertKey == "" || k == tmapInsertKey {
+											delT = true
+										} else {
+											problem("tindex.getOrCreateJournal: the failed-save path deletes tmap[%s] but the descriptor was inserted as tmap[%s]", k, tmapInsertKey)
+										}
 									case "smap":
 										delS = true
 									}
@@ -106,6 +277,9 @@ func init() {
 		l.p("def saveFailureDeletesTmap : Bool := %s", leanBool(delT))
 		l.p("/-- the failure path of the save contains `delete(ims.smap, …)` -/")
 		l.p("def saveFailureDeletesSmap : Bool := %s", leanBool(delS))
+		l.p("/-- proposed-fixes/F08r.diff: between the raw-text look-up and the look-up of the canonical line there is an")
+		l.p("`if !tgs.Reparses() { … return … }` (a tag.Set method calling kvstring.ToMap and kvstring.MapsEquals) -/")
+		l.p("def reparseGuardBeforeLookup : Bool := %s", leanBool(fd != nil && c06ReparseGuard(fd)))
 		l.write()
 	}
 }
